@@ -328,276 +328,277 @@ def run(ctx):
     IGNORE.clear()
     IGNORE.update({params_of(P)[0]['id'], params_of(S)[0]['id']})
 
-    # ---- locate the container branches: `ret = JSON::dict()` / `JSON::list()` followed by a loop on the separator
-    containers = []
-    for x in walk(body):
-        if x.get('kind') == 'WhileStmt':
-            cond, wb = while_parts(x)
-            r = relation(cond, True)
-            if r and r[1] == '!=' and int_value(r[2]) in (ord('}'), ord(']')) and ref_decl(r[0]):
-                containers.append((x, ref_decl(r[0])['id'], int_value(r[2])))
-    ctx.require(len(containers) == 2, 'container loops (`while (separator != close)`) not found: %d' % len(containers))
-
-    # ---- R1 / R3
-    R1, R3 = 'C05-R1', 'C05-R3'
-    for loop, sep_id, close_ch in containers:
-        open_ch = ord('{') if close_ch == ord('}') else ord('[')
-        name = 'dict' if close_ch == ord('}') else 'list'
-        cond, wb = while_parts(loop)
-        breaks = [b for b in walk(wb) if b.get('kind') == 'BreakStmt' and enclosing(b, LOOPS) is loop]
-        early = [b for b in breaks if peeks_char(b, close_ch)]
-        if not early:
-            ctx.bad(R3, name + '|empty-accepted', loop, 'no early close (`peek == close bracket` then break) in the %s loop: an empty container cannot complete without parsing an element' % name)
-            continue
-        for i, b in enumerate(early):
-            # after a comma (trailing comma = extension): unreachable under strict
-            after_comma = reachable_under(b, make_assume(pflag['id'], {sep_id: ord(',')}))
-            ctx.check(not after_comma, R1, '%s|trailing-comma-gated#%d' % (name, i), b, 'early close after a comma is unreachable when disable_extensions is true',
-                      'strict mode accepts a trailing comma in a %s: the early close is reachable with disable_extensions=true and separator=\',\'' % name)
-        # directly after the opening bracket (standard empty container): reachable under strict
-        reach_open = any(reachable_under(b, make_assume(pflag['id'], {sep_id: open_ch})) for b in early)
-        ctx.check(reach_open, R3, name + '|empty-accepted', early[0], 'close bracket right after the opening bracket completes the %s under strict mode' % name,
-                  'strict mode rejects the empty %s: the early close is unreachable with disable_extensions=true even right after the opening bracket' % name)
-    # comment start
-    sites = []
-    sbody = body_of(S)
-    # the comment-start sites: whatever executes under a test of the current character against '/'
-    bool_assigns = []
-    for x in walk(sbody):
-        if x.get('kind') == 'IfStmt':
-            cond, then, els = if_parts(x)
-            slash = False
-            for n_, pol_ in atoms([Fact(cond, True, x)]):
-                r_ = relation(n_, pol_)
-                if r_ and r_[1] == '==' and (int_value(r_[2]) == 47 or int_value(r_[0]) == 47):
-                    slash = True
-            if slash and then is not None:
-                st_ = stmts_of(then)
-                if st_:
-                    bool_assigns.append(strip(st_[0]))
-    ctx.require(len(bool_assigns) >= 1, 'comment-start site (a statement under a test for \'/\') not found in skip_whitespace_and_comments')
-    for i, a in enumerate(bool_assigns):
-        ok = not reachable_under(a, make_assume(sflag['id'], {}))
-        ctx.check(ok, R1, 'comment-start#%d' % i, a, '`//` starts a comment only when extensions are enabled', 'strict mode treats `//` as a comment: the comment state is entered with disable_extensions=true')
-    # hex integers: value_for_hex_char calls outside string escapes, and the go() over "0x"
-    hex_sites = [c for c in walk(body) if c.get('kind') == 'CXXMemberCallExpr' and call_name(c) == 'go']
-    hex_sites += [c for c in walk(body) if c.get('kind') == 'CallExpr' and call_name(c) == 'value_for_hex_char' and enclosing(c, ('CXXTryStmt',)) is None]
-    ctx.require(len(hex_sites) >= 1, 'hex-integer site not found')
-    for i, c in enumerate(hex_sites):
-        ok = not reachable_under(c, make_assume(pflag['id'], {}))
-        ctx.check(ok, R1, 'hex-integer#%d' % i, c, 'hex integer scanning unreachable under strict mode', 'strict mode accepts hex integers: this site is reachable with disable_extensions=true')
-    # one-character constants
-    one = [c for c in walk(body) if c.get('kind') == 'CXXMemberCallExpr' and call_name(c) == 'skip_if' and int_value(call_args(c)[1]) == 1]
-    ctx.require(len(one) == 3, 'expected three one-character constant sites (n/t/f), found %d' % len(one))
-    for c in one:
-        lit = strip(call_args(c)[0])
-        txt = lit.get('value', '?') if lit.get('kind') == 'StringLiteral' else canon(lit)
-        ok = not reachable_under(c, make_assume(pflag['id'], {}))
-        ctx.check(ok, R1, 'one-char-constant|%s' % txt, c, 'skip_if(%s, 1) evaluated only when extensions are enabled' % txt, 'strict mode accepts the one-character constant %s' % txt)
-
-    # ---- R2 flag propagation
-    with ctx.section('C05-R2', 'C05'):
-        R = 'C05-R2'
-        n = 0
-        for f in (P, cptr[0], strs[0], S):
-            fl = flag_param(f)
-            for c in walk(body_of(f)):
-                if c.get('kind') != 'CallExpr':
-                    continue
-                d = callee_decl(c, u)
-                nm = (d or {}).get('name')
-                if nm == 'skip_whitespace_and_comments' or (nm == 'parse' and (d.get('mangledName') or '').startswith('_ZN5phosg4JSON5parse')):
-                    n += 1
-                    a = call_args(c)
-                    last = a[-1] if a else None
-                    ok = last is not None and last.get('kind') != 'CXXDefaultArgExpr' and (ref_decl(last) or {}).get('id') == fl['id']
-                    ctx.check(ok, R, '%s->%s@%s' % (f.get('name'), nm, c.get('_line')), c, 'passes its own disable_extensions',
-                              'call `%s` does not pass the caller\'s disable_extensions (%s): nested values are parsed with extensions %s' % (src_text(c, 70), 'default argument' if last is not None and last.get('kind') == 'CXXDefaultArgExpr' else canon(last) if last is not None else 'missing', 'enabled'))
-
-    # ---- R4 exception escape
-    with ctx.section('C05-R4', 'C05'):
-        R = 'C05-R4'
-        E = Exc([u, us], [refine_size_guarded_at, refine_after_type_test, refine_variant_get,
-                          make_refine_fresh_container({'emplace': 'dict', 'emplace_back': 'list', 'as_dict': 'dict', 'as_list': 'list'})])
-        for f, label in ((P, 'parse(StringReader&)'), (cptr[0], 'parse(const char*, size_t)'), (strs[0], 'parse(const std::string&)')):
-            mt = E.may_throw(f, u)
-            extra = {t: w for t, w in mt.items() if t not in ALLOWED_EXC}
-            ctx.check(not extra, R, label, f, 'may throw %s' % sorted(mt),
-                      'undocumented exception type(s) can escape: %s' % '; '.join('%s via %s' % (t, w[:260]) for t, w in extra.items()))
-        ctx.extra['exemptions'] = ['%s: %s (%s)' % e for e in E.exemptions][:40]
-        ctx.extra['unresolved_phosg_callees'] = sorted(E.unknown)[:20]
-
-    # ---- R5 input access layering
-    with ctx.section('C05-R5', 'C05'):
-        R = 'C05-R5'
-        seen = {}
-        for f in (P, S):
-            for c in walk(body_of(f)):
-                if c.get('kind') == 'CXXMemberCallExpr':
-                    obj = member_call_object(c)
-                    if 'StringReader' not in (dtype(obj) or ''):
-                        continue
-                    nm = call_name(c)
-                    t = qtype(c) or ''
-                    raw = '*' in t or '&' in t
-                    key = '%s|%s' % (f.get('name'), nm)
-                    if key in seen and not raw:
-                        continue
-                    seen[key] = 1
-                    ctx.check(not raw, R, key + ('@%s' % c.get('_line') if raw else ''), c, 'value-returning checked accessor', 'the parser obtains a raw pointer/reference into the input (%s returns %s): reads through it bypass the bounds checks' % (nm, t))
-        # raw libc scanners on the input
-        for f in (P, S):
-            for c in walk(body_of(f)):
-                if c.get('kind') == 'CallExpr' and call_name(c) in ('strtod', 'strtol', 'strtoul', 'strtoull', 'strtoll', 'atoi', 'atof', 'sscanf', 'strlen', 'memchr', 'strchr'):
-                    ctx.bad(R, '%s|%s@%s' % (f.get('name'), call_name(c), c.get('_line')), c, '%s scans memory without a length: it can read past the end of the input' % call_name(c))
-        gos = [c for c in walk(body) if c.get('kind') == 'CXXMemberCallExpr' and call_name(c) == 'go']
-        for i, g in enumerate(gos):
-            arg = nf(call_args(g)[0])
-            rels = [(nf(r_[0]), r_[1], nf(r_[2])) for r_ in [relation(n_, p_) for n_, p_ in atoms(path_facts(g, ignore_kills_of=IGNORE))] if r_]
-            ok = False
-            import re as _re
-            m = _re.match(r'^\((\d+) \+ r\.where\(\)\)$', arg) or _re.match(r'^\(r\.where\(\) \+ (\d+)\)$', arg)
-            if m:
-                k = int(m.group(1))
-                for a, op, b in rels + [(b_, FLIP[op_], a_) for a_, op_, b_ in rels]:
-                    if a in ('(%d + r.where())' % k, '(r.where() + %d)' % k) and op in ('<', '<=') and b == 'r.size()':
-                        ok = True
-            ctx.check(ok, R, 'go#%d' % i, g, 'go(%s) dominated by %s <(=) size()' % (arg, arg), 'go(%s) is not dominated by a test that the target is inside the input' % arg)
-
-    # ---- R6 progress
-    with ctx.section('C05-R6', 'C05'):
-        R = 'C05-R6'
-        for f in (P, S):
-            i = 0
-            for lp in walk(body_of(f)):
-                if lp.get('kind') not in LOOPS:
-                    continue
-                i += 1
-                key = '%s|loop@%s' % (f.get('name'), src_text(lp, 40).split('{')[0].strip())
-                lb = loop_body(lp)
-                cond_consumes = False
-                countdown = False
-                if lp.get('kind') == 'WhileStmt':
-                    cond, _ = while_parts(lp)
-                    cond_consumes = any(is_consuming_call(c, f, u) for c in _uncond(cond)) if cond else False
-                if lp.get('kind') == 'ForStmt':
-                    init, cv, cond, inc, _ = for_parts(lp)
-                    # an increment clause that consumes input runs after every turn (also after `continue`)
-                    if inc is not None and inc.get('kind') and any(is_consuming_call(c, f, u) for c in _uncond(inc)):
-                        cond_consumes = True
-                    r = relation(cond, True) if cond else None
-                    if r and inc is not None:
-                        inc_s = strip(inc)
-                        v = ref_decl(r[0])
-                        if v and inc_s.get('kind') == 'UnaryOperator' and inc_s.get('opcode') == '--' and (ref_decl(inc_s['inner'][0]) or {}).get('id') == v['id'] and r[1] == '>' and int_value(r[2]) is not None:
-                            countdown = v['id'] not in assigned_keys(lb)
-                if not countdown and lp.get('kind') in ('WhileStmt', 'ForStmt'):
-                    # `while (v > c) { ...; v--; }`: the counter is stepped unconditionally once per turn
-                    cond_ = while_parts(lp)[0] if lp.get('kind') == 'WhileStmt' else for_parts(lp)[2]
-                    r = relation(cond_, True) if cond_ is not None and cond_.get('kind') else None
-                    v = ref_decl(r[0]) if r else None
-                    if v and v.get('kind') == 'VarDecl' and int_value(r[2]) is not None and lb.get('kind') == 'CompoundStmt':
-                        steps = []
-                        others = False
-                        for st_ in kids(lb):
-                            s0 = strip(st_)
-                            is_step = (s0.get('kind') == 'UnaryOperator' and s0.get('opcode') in ('--', '++') and (ref_decl(s0['inner'][0]) or {}).get('id') == v['id']) or \
-                                      (s0.get('kind') == 'CompoundAssignOperator' and s0.get('opcode') in ('-=', '+=') and (ref_decl(s0['inner'][0]) or {}).get('id') == v['id'] and (int_value(s0['inner'][1]) or 0) > 0)
-                            if is_step:
-                                steps.append(s0)
-                            elif v['id'] in assigned_keys(st_) or any(x.get('kind') == 'ContinueStmt' for x in walk(st_)):
-                                others = True
-                        if len(steps) == 1 and not others:
-                            down = steps[0].get('opcode') in ('--', '-=')
-                            countdown = (down and r[1] in ('>', '>=', '!=')) or ((not down) and r[1] in ('<', '<=', '!='))
-                ok = cond_consumes or countdown or consumes(lb, f, u)
-                ctx.check(ok, R, key, lp, 'each iteration consumes input / leaves the loop / counts down', 'a path through this loop body neither consumes input nor leaves the loop: the parser can spin forever on some input')
-
-    # ---- R7 trailing data
-    with ctx.section('C05-R7', 'C05'):
-        R = 'C05-R7'
-        cb = body_of(cptr[0])
-        rets = [x for x in walk(cb) if x.get('kind') == 'ReturnStmt']
-        good = False
-        why = 'no return'
-        if len(rets) == 1:
-            why = 'the return is not dominated by `if (!r.eof()) throw parse_error`'
-            for ft in path_facts(rets[0]):
-                c = strip(ft.cond)
-                # fact: !(!r.eof())  i.e. cond `!r.eof()` false
-                inner = c
-                pol = ft.pol
-                for n_, p_ in atoms([ft]):
-                    n_ = strip(n_)
-                    if n_.get('kind') == 'CXXMemberCallExpr' and call_name(n_) == 'eof' and p_ is True:
-                        thr = [t for t in walk(ft.origin) if t.get('kind') == 'CXXThrowExpr']
-                        if thr and norm_type(dtype(kids(thr[0])[0])).endswith('parse_error'):
-                            good = True
-            # whitespace skipped between the value and the test
-            pre = preceding_statements(rets[0])
-            names = [call_name(c) for s in pre for c in walk(s) if c.get('kind') == 'CallExpr']
-            if good and not ('skip_whitespace_and_comments' in names and 'parse' in names and names.index('skip_whitespace_and_comments') < names.index('parse')):
-                good = False
-                why = 'trailing whitespace is not skipped between the value and the end-of-input test'
-        ctx.check(good, R, 'parse(const char*, size_t)|trailing-data', cptr[0], 'parse; skip whitespace; throw parse_error unless eof', why)
-        sb = body_of(strs[0])
-        calls = [c for c in walk(sb) if c.get('kind') == 'CallExpr' and call_name(c) == 'parse']
-        ok = len(calls) == 1 and (callee_decl(calls[0], u) or {}).get('mangledName') == cptr[0].get('mangledName')
-        if ok:
-            a = call_args(calls[0])
-            ok = canon(a[0]) == 's.data()' and canon(a[1]) == 's.size()'
-        ctx.check(ok, R, 'parse(const std::string&)|forwards', strs[0], 'forwards (s.data(), s.size(), flag) to the pointer overload', 'std::string overload does not forward its whole buffer to the checked pointer overload')
-        rrets = [x for x in walk(body) if x.get('kind') == 'ReturnStmt']
-        ctx.check(len(rrets) >= 1, R, 'parse(StringReader&)|returns', P, 'reader overload returns after one value (no trailing-data check by design)', 'reader overload never returns')
-
-    # ---- R8 float classification
-    with ctx.section('C05-R8', 'C05'):
-        R = 'C05-R8'
-        # the decision variable: `if (is_int) ret = int else ret = float`
-        decision = None
-        for x in walk(body):
-            if x.get('kind') == 'IfStmt':
-                cond, then, els = if_parts(x)
-                rd = ref_decl(cond)
-                if rd and rd.get('kind') == 'VarDecl' and dtype(strip(cond)) == 'bool' and els is not None:
-                    decision = (x, rd)
-        ctx.require(decision is not None, 'int/float decision (`if (is_int) ... else ...`) not found')
-        dec, isint = decision
-        markers = []
-        for x in walk(body):
-            if x.get('kind') == 'IfStmt':
-                cond, then, els = if_parts(x)
-                chars = set()
-                for n_, p_ in atoms([Fact(cond, True, x)]):
-                    pass
-                for y in walk(cond):
-                    r = relation(y, True)
-                    if r and r[1] == '==' and int_value(r[2]) in (ord('.'), ord('e'), ord('E')):
-                        chars.add(int_value(r[2]))
-                if chars and then is not None and enclosing(x, ('IfStmt',)) is not None:
-                    markers.append((x, chars, then))
-        ctx.require(len(markers) >= 2, 'fraction/exponent branches of the number scanner not found')
-        for x, chars, then in markers:
-            sets_false = any(s.get('kind') == 'BinaryOperator' and s.get('opcode') == '=' and (ref_decl(s['inner'][0]) or {}).get('id') == isint['id'] and int_value(s['inner'][1]) == 0
-                             for s in [strip(t) for t in stmts_of(then)])
-            label = ''.join(sorted(chr(c) for c in chars))
-            ctx.check(sets_false, R, 'marker|' + label, x, 'numeral containing %r is classified as a float' % label,
-                      'a numeral containing %r keeps is_int = true: %s is parsed as an integer (5e-1 becomes 0)' % (label, 'exponent form' if 'e' in label else 'fraction'))
-            if '.' in label:
-                bad_acc = []
-                for lp in [y for y in walk(then) if y.get('kind') in LOOPS]:
-                    for a in walk(lp):
-                        if a.get('kind') in ('BinaryOperator', 'CompoundAssignOperator') and a.get('opcode') in ('=', '+=', '-=', '*=', '/=', '<<=', '|=') and (ref_decl(a['inner'][0]) or {}).get('kind') == 'VarDecl':
-                            if (dtype(a['inner'][0]) or '') not in ('double', 'float', 'long double'):
-                                bad_acc.append(a)
-                ctx.check(not bad_acc, R, 'fraction|floating-accumulator', bad_acc[0] if bad_acc else x, 'fraction digits are accumulated in floating point',
-                          'fraction digits are accumulated in the fixed-width integer `%s`: a fraction with more digits than the type holds overflows and the numeral parses to a wrong value' % (src_text(bad_acc[0], 60) if bad_acc else ''))
-        # the final int/float decision follows every marker branch
-        ctx.check(all(x.get('_off', 0) < dec.get('_off', 0) for x, _, _ in markers), R, 'decision-after-markers', dec, 'int/float decision is taken after scanning', 'the int/float decision precedes the fraction/exponent scan')
     with ctx.section('C05-R9', 'C05'):
         check_whitespace_set(ctx, u, S, sflag)
     with ctx.section('C05-R10', P):
         check_parser_by_evaluation(ctx, u, us, reader[0], cptr[0], strs[0])
+    with ctx.section('C05-R1', P, also=('C05-R2', 'C05-R3', 'C05-R4', 'C05-R5', 'C05-R6', 'C05-R7', 'C05-R8')):
+        # ---- locate the container branches: `ret = JSON::dict()` / `JSON::list()` followed by a loop on the separator
+        containers = []
+        for x in walk(body):
+            if x.get('kind') == 'WhileStmt':
+                cond, wb = while_parts(x)
+                r = relation(cond, True)
+                if r and r[1] == '!=' and int_value(r[2]) in (ord('}'), ord(']')) and ref_decl(r[0]):
+                    containers.append((x, ref_decl(r[0])['id'], int_value(r[2])))
+        ctx.require(len(containers) == 2, 'container loops (`while (separator != close)`) not found: %d' % len(containers))
+
+        # ---- R1 / R3
+        R1, R3 = 'C05-R1', 'C05-R3'
+        for loop, sep_id, close_ch in containers:
+            open_ch = ord('{') if close_ch == ord('}') else ord('[')
+            name = 'dict' if close_ch == ord('}') else 'list'
+            cond, wb = while_parts(loop)
+            breaks = [b for b in walk(wb) if b.get('kind') == 'BreakStmt' and enclosing(b, LOOPS) is loop]
+            early = [b for b in breaks if peeks_char(b, close_ch)]
+            if not early:
+                ctx.bad(R3, name + '|empty-accepted', loop, 'no early close (`peek == close bracket` then break) in the %s loop: an empty container cannot complete without parsing an element' % name)
+                continue
+            for i, b in enumerate(early):
+                # after a comma (trailing comma = extension): unreachable under strict
+                after_comma = reachable_under(b, make_assume(pflag['id'], {sep_id: ord(',')}))
+                ctx.check(not after_comma, R1, '%s|trailing-comma-gated#%d' % (name, i), b, 'early close after a comma is unreachable when disable_extensions is true',
+                          'strict mode accepts a trailing comma in a %s: the early close is reachable with disable_extensions=true and separator=\',\'' % name)
+            # directly after the opening bracket (standard empty container): reachable under strict
+            reach_open = any(reachable_under(b, make_assume(pflag['id'], {sep_id: open_ch})) for b in early)
+            ctx.check(reach_open, R3, name + '|empty-accepted', early[0], 'close bracket right after the opening bracket completes the %s under strict mode' % name,
+                      'strict mode rejects the empty %s: the early close is unreachable with disable_extensions=true even right after the opening bracket' % name)
+        # comment start
+        sites = []
+        sbody = body_of(S)
+        # the comment-start sites: whatever executes under a test of the current character against '/'
+        bool_assigns = []
+        for x in walk(sbody):
+            if x.get('kind') == 'IfStmt':
+                cond, then, els = if_parts(x)
+                slash = False
+                for n_, pol_ in atoms([Fact(cond, True, x)]):
+                    r_ = relation(n_, pol_)
+                    if r_ and r_[1] == '==' and (int_value(r_[2]) == 47 or int_value(r_[0]) == 47):
+                        slash = True
+                if slash and then is not None:
+                    st_ = stmts_of(then)
+                    if st_:
+                        bool_assigns.append(strip(st_[0]))
+        ctx.require(len(bool_assigns) >= 1, 'comment-start site (a statement under a test for \'/\') not found in skip_whitespace_and_comments')
+        for i, a in enumerate(bool_assigns):
+            ok = not reachable_under(a, make_assume(sflag['id'], {}))
+            ctx.check(ok, R1, 'comment-start#%d' % i, a, '`//` starts a comment only when extensions are enabled', 'strict mode treats `//` as a comment: the comment state is entered with disable_extensions=true')
+        # hex integers: value_for_hex_char calls outside string escapes, and the go() over "0x"
+        hex_sites = [c for c in walk(body) if c.get('kind') == 'CXXMemberCallExpr' and call_name(c) == 'go']
+        hex_sites += [c for c in walk(body) if c.get('kind') == 'CallExpr' and call_name(c) == 'value_for_hex_char' and enclosing(c, ('CXXTryStmt',)) is None]
+        ctx.require(len(hex_sites) >= 1, 'hex-integer site not found')
+        for i, c in enumerate(hex_sites):
+            ok = not reachable_under(c, make_assume(pflag['id'], {}))
+            ctx.check(ok, R1, 'hex-integer#%d' % i, c, 'hex integer scanning unreachable under strict mode', 'strict mode accepts hex integers: this site is reachable with disable_extensions=true')
+        # one-character constants
+        one = [c for c in walk(body) if c.get('kind') == 'CXXMemberCallExpr' and call_name(c) == 'skip_if' and int_value(call_args(c)[1]) == 1]
+        ctx.require(len(one) == 3, 'expected three one-character constant sites (n/t/f), found %d' % len(one))
+        for c in one:
+            lit = strip(call_args(c)[0])
+            txt = lit.get('value', '?') if lit.get('kind') == 'StringLiteral' else canon(lit)
+            ok = not reachable_under(c, make_assume(pflag['id'], {}))
+            ctx.check(ok, R1, 'one-char-constant|%s' % txt, c, 'skip_if(%s, 1) evaluated only when extensions are enabled' % txt, 'strict mode accepts the one-character constant %s' % txt)
+
+        # ---- R2 flag propagation
+        with ctx.section('C05-R2', 'C05'):
+            R = 'C05-R2'
+            n = 0
+            for f in (P, cptr[0], strs[0], S):
+                fl = flag_param(f)
+                for c in walk(body_of(f)):
+                    if c.get('kind') != 'CallExpr':
+                        continue
+                    d = callee_decl(c, u)
+                    nm = (d or {}).get('name')
+                    if nm == 'skip_whitespace_and_comments' or (nm == 'parse' and (d.get('mangledName') or '').startswith('_ZN5phosg4JSON5parse')):
+                        n += 1
+                        a = call_args(c)
+                        last = a[-1] if a else None
+                        ok = last is not None and last.get('kind') != 'CXXDefaultArgExpr' and (ref_decl(last) or {}).get('id') == fl['id']
+                        ctx.check(ok, R, '%s->%s@%s' % (f.get('name'), nm, c.get('_line')), c, 'passes its own disable_extensions',
+                                  'call `%s` does not pass the caller\'s disable_extensions (%s): nested values are parsed with extensions %s' % (src_text(c, 70), 'default argument' if last is not None and last.get('kind') == 'CXXDefaultArgExpr' else canon(last) if last is not None else 'missing', 'enabled'))
+
+        # ---- R4 exception escape
+        with ctx.section('C05-R4', 'C05'):
+            R = 'C05-R4'
+            E = Exc([u, us], [refine_size_guarded_at, refine_after_type_test, refine_variant_get,
+                              make_refine_fresh_container({'emplace': 'dict', 'emplace_back': 'list', 'as_dict': 'dict', 'as_list': 'list'})])
+            for f, label in ((P, 'parse(StringReader&)'), (cptr[0], 'parse(const char*, size_t)'), (strs[0], 'parse(const std::string&)')):
+                mt = E.may_throw(f, u)
+                extra = {t: w for t, w in mt.items() if t not in ALLOWED_EXC}
+                ctx.check(not extra, R, label, f, 'may throw %s' % sorted(mt),
+                          'undocumented exception type(s) can escape: %s' % '; '.join('%s via %s' % (t, w[:260]) for t, w in extra.items()))
+            ctx.extra['exemptions'] = ['%s: %s (%s)' % e for e in E.exemptions][:40]
+            ctx.extra['unresolved_phosg_callees'] = sorted(E.unknown)[:20]
+
+        # ---- R5 input access layering
+        with ctx.section('C05-R5', 'C05'):
+            R = 'C05-R5'
+            seen = {}
+            for f in (P, S):
+                for c in walk(body_of(f)):
+                    if c.get('kind') == 'CXXMemberCallExpr':
+                        obj = member_call_object(c)
+                        if 'StringReader' not in (dtype(obj) or ''):
+                            continue
+                        nm = call_name(c)
+                        t = qtype(c) or ''
+                        raw = '*' in t or '&' in t
+                        key = '%s|%s' % (f.get('name'), nm)
+                        if key in seen and not raw:
+                            continue
+                        seen[key] = 1
+                        ctx.check(not raw, R, key + ('@%s' % c.get('_line') if raw else ''), c, 'value-returning checked accessor', 'the parser obtains a raw pointer/reference into the input (%s returns %s): reads through it bypass the bounds checks' % (nm, t))
+            # raw libc scanners on the input
+            for f in (P, S):
+                for c in walk(body_of(f)):
+                    if c.get('kind') == 'CallExpr' and call_name(c) in ('strtod', 'strtol', 'strtoul', 'strtoull', 'strtoll', 'atoi', 'atof', 'sscanf', 'strlen', 'memchr', 'strchr'):
+                        ctx.bad(R, '%s|%s@%s' % (f.get('name'), call_name(c), c.get('_line')), c, '%s scans memory without a length: it can read past the end of the input' % call_name(c))
+            gos = [c for c in walk(body) if c.get('kind') == 'CXXMemberCallExpr' and call_name(c) == 'go']
+            for i, g in enumerate(gos):
+                arg = nf(call_args(g)[0])
+                rels = [(nf(r_[0]), r_[1], nf(r_[2])) for r_ in [relation(n_, p_) for n_, p_ in atoms(path_facts(g, ignore_kills_of=IGNORE))] if r_]
+                ok = False
+                import re as _re
+                m = _re.match(r'^\((\d+) \+ r\.where\(\)\)$', arg) or _re.match(r'^\(r\.where\(\) \+ (\d+)\)$', arg)
+                if m:
+                    k = int(m.group(1))
+                    for a, op, b in rels + [(b_, FLIP[op_], a_) for a_, op_, b_ in rels]:
+                        if a in ('(%d + r.where())' % k, '(r.where() + %d)' % k) and op in ('<', '<=') and b == 'r.size()':
+                            ok = True
+                ctx.check(ok, R, 'go#%d' % i, g, 'go(%s) dominated by %s <(=) size()' % (arg, arg), 'go(%s) is not dominated by a test that the target is inside the input' % arg)
+
+        # ---- R6 progress
+        with ctx.section('C05-R6', 'C05'):
+            R = 'C05-R6'
+            for f in (P, S):
+                i = 0
+                for lp in walk(body_of(f)):
+                    if lp.get('kind') not in LOOPS:
+                        continue
+                    i += 1
+                    key = '%s|loop@%s' % (f.get('name'), src_text(lp, 40).split('{')[0].strip())
+                    lb = loop_body(lp)
+                    cond_consumes = False
+                    countdown = False
+                    if lp.get('kind') == 'WhileStmt':
+                        cond, _ = while_parts(lp)
+                        cond_consumes = any(is_consuming_call(c, f, u) for c in _uncond(cond)) if cond else False
+                    if lp.get('kind') == 'ForStmt':
+                        init, cv, cond, inc, _ = for_parts(lp)
+                        # an increment clause that consumes input runs after every turn (also after `continue`)
+                        if inc is not None and inc.get('kind') and any(is_consuming_call(c, f, u) for c in _uncond(inc)):
+                            cond_consumes = True
+                        r = relation(cond, True) if cond else None
+                        if r and inc is not None:
+                            inc_s = strip(inc)
+                            v = ref_decl(r[0])
+                            if v and inc_s.get('kind') == 'UnaryOperator' and inc_s.get('opcode') == '--' and (ref_decl(inc_s['inner'][0]) or {}).get('id') == v['id'] and r[1] == '>' and int_value(r[2]) is not None:
+                                countdown = v['id'] not in assigned_keys(lb)
+                    if not countdown and lp.get('kind') in ('WhileStmt', 'ForStmt'):
+                        # `while (v > c) { ...; v--; }`: the counter is stepped unconditionally once per turn
+                        cond_ = while_parts(lp)[0] if lp.get('kind') == 'WhileStmt' else for_parts(lp)[2]
+                        r = relation(cond_, True) if cond_ is not None and cond_.get('kind') else None
+                        v = ref_decl(r[0]) if r else None
+                        if v and v.get('kind') == 'VarDecl' and int_value(r[2]) is not None and lb.get('kind') == 'CompoundStmt':
+                            steps = []
+                            others = False
+                            for st_ in kids(lb):
+                                s0 = strip(st_)
+                                is_step = (s0.get('kind') == 'UnaryOperator' and s0.get('opcode') in ('--', '++') and (ref_decl(s0['inner'][0]) or {}).get('id') == v['id']) or \
+                                          (s0.get('kind') == 'CompoundAssignOperator' and s0.get('opcode') in ('-=', '+=') and (ref_decl(s0['inner'][0]) or {}).get('id') == v['id'] and (int_value(s0['inner'][1]) or 0) > 0)
+                                if is_step:
+                                    steps.append(s0)
+                                elif v['id'] in assigned_keys(st_) or any(x.get('kind') == 'ContinueStmt' for x in walk(st_)):
+                                    others = True
+                            if len(steps) == 1 and not others:
+                                down = steps[0].get('opcode') in ('--', '-=')
+                                countdown = (down and r[1] in ('>', '>=', '!=')) or ((not down) and r[1] in ('<', '<=', '!='))
+                    ok = cond_consumes or countdown or consumes(lb, f, u)
+                    ctx.check(ok, R, key, lp, 'each iteration consumes input / leaves the loop / counts down', 'a path through this loop body neither consumes input nor leaves the loop: the parser can spin forever on some input')
+
+        # ---- R7 trailing data
+        with ctx.section('C05-R7', 'C05'):
+            R = 'C05-R7'
+            cb = body_of(cptr[0])
+            rets = [x for x in walk(cb) if x.get('kind') == 'ReturnStmt']
+            good = False
+            why = 'no return'
+            if len(rets) == 1:
+                why = 'the return is not dominated by `if (!r.eof()) throw parse_error`'
+                for ft in path_facts(rets[0]):
+                    c = strip(ft.cond)
+                    # fact: !(!r.eof())  i.e. cond `!r.eof()` false
+                    inner = c
+                    pol = ft.pol
+                    for n_, p_ in atoms([ft]):
+                        n_ = strip(n_)
+                        if n_.get('kind') == 'CXXMemberCallExpr' and call_name(n_) == 'eof' and p_ is True:
+                            thr = [t for t in walk(ft.origin) if t.get('kind') == 'CXXThrowExpr']
+                            if thr and norm_type(dtype(kids(thr[0])[0])).endswith('parse_error'):
+                                good = True
+                # whitespace skipped between the value and the test
+                pre = preceding_statements(rets[0])
+                names = [call_name(c) for s in pre for c in walk(s) if c.get('kind') == 'CallExpr']
+                if good and not ('skip_whitespace_and_comments' in names and 'parse' in names and names.index('skip_whitespace_and_comments') < names.index('parse')):
+                    good = False
+                    why = 'trailing whitespace is not skipped between the value and the end-of-input test'
+            ctx.check(good, R, 'parse(const char*, size_t)|trailing-data', cptr[0], 'parse; skip whitespace; throw parse_error unless eof', why)
+            sb = body_of(strs[0])
+            calls = [c for c in walk(sb) if c.get('kind') == 'CallExpr' and call_name(c) == 'parse']
+            ok = len(calls) == 1 and (callee_decl(calls[0], u) or {}).get('mangledName') == cptr[0].get('mangledName')
+            if ok:
+                a = call_args(calls[0])
+                ok = canon(a[0]) == 's.data()' and canon(a[1]) == 's.size()'
+            ctx.check(ok, R, 'parse(const std::string&)|forwards', strs[0], 'forwards (s.data(), s.size(), flag) to the pointer overload', 'std::string overload does not forward its whole buffer to the checked pointer overload')
+            rrets = [x for x in walk(body) if x.get('kind') == 'ReturnStmt']
+            ctx.check(len(rrets) >= 1, R, 'parse(StringReader&)|returns', P, 'reader overload returns after one value (no trailing-data check by design)', 'reader overload never returns')
+
+        # ---- R8 float classification
+        with ctx.section('C05-R8', 'C05'):
+            R = 'C05-R8'
+            # the decision variable: `if (is_int) ret = int else ret = float`
+            decision = None
+            for x in walk(body):
+                if x.get('kind') == 'IfStmt':
+                    cond, then, els = if_parts(x)
+                    rd = ref_decl(cond)
+                    if rd and rd.get('kind') == 'VarDecl' and dtype(strip(cond)) == 'bool' and els is not None:
+                        decision = (x, rd)
+            ctx.require(decision is not None, 'int/float decision (`if (is_int) ... else ...`) not found')
+            dec, isint = decision
+            markers = []
+            for x in walk(body):
+                if x.get('kind') == 'IfStmt':
+                    cond, then, els = if_parts(x)
+                    chars = set()
+                    for n_, p_ in atoms([Fact(cond, True, x)]):
+                        pass
+                    for y in walk(cond):
+                        r = relation(y, True)
+                        if r and r[1] == '==' and int_value(r[2]) in (ord('.'), ord('e'), ord('E')):
+                            chars.add(int_value(r[2]))
+                    if chars and then is not None and enclosing(x, ('IfStmt',)) is not None:
+                        markers.append((x, chars, then))
+            ctx.require(len(markers) >= 2, 'fraction/exponent branches of the number scanner not found')
+            for x, chars, then in markers:
+                sets_false = any(s.get('kind') == 'BinaryOperator' and s.get('opcode') == '=' and (ref_decl(s['inner'][0]) or {}).get('id') == isint['id'] and int_value(s['inner'][1]) == 0
+                                 for s in [strip(t) for t in stmts_of(then)])
+                label = ''.join(sorted(chr(c) for c in chars))
+                ctx.check(sets_false, R, 'marker|' + label, x, 'numeral containing %r is classified as a float' % label,
+                          'a numeral containing %r keeps is_int = true: %s is parsed as an integer (5e-1 becomes 0)' % (label, 'exponent form' if 'e' in label else 'fraction'))
+                if '.' in label:
+                    bad_acc = []
+                    for lp in [y for y in walk(then) if y.get('kind') in LOOPS]:
+                        for a in walk(lp):
+                            if a.get('kind') in ('BinaryOperator', 'CompoundAssignOperator') and a.get('opcode') in ('=', '+=', '-=', '*=', '/=', '<<=', '|=') and (ref_decl(a['inner'][0]) or {}).get('kind') == 'VarDecl':
+                                if (dtype(a['inner'][0]) or '') not in ('double', 'float', 'long double'):
+                                    bad_acc.append(a)
+                    ctx.check(not bad_acc, R, 'fraction|floating-accumulator', bad_acc[0] if bad_acc else x, 'fraction digits are accumulated in floating point',
+                              'fraction digits are accumulated in the fixed-width integer `%s`: a fraction with more digits than the type holds overflows and the numeral parses to a wrong value' % (src_text(bad_acc[0], 60) if bad_acc else ''))
+            # the final int/float decision follows every marker branch
+            ctx.check(all(x.get('_off', 0) < dec.get('_off', 0) for x, _, _ in markers), R, 'decision-after-markers', dec, 'int/float decision is taken after scanning', 'the int/float decision precedes the fraction/exponent scan')
     ctx.note('Entry points: JSON::parse(StringReader&, bool), (const char*, size_t, bool), (const std::string&, bool); callees resolved across JSON.cc and Strings.cc.')
 
 
